@@ -24,7 +24,15 @@ from sa.props import PROPS  # noqa: E402
 from sa.report import Reporter  # noqa: E402
 
 
+def _evidence_dir_for(root: str):
+    """Evidence under /verif/evidence is only ever written for /repo itself; other roots (scratch copies) go elsewhere."""
+    import sa.report as report
+    if os.path.realpath(root) != "/repo" and not os.environ.get("J2M_EVIDENCE_DIR"):
+        report.EVIDENCE_DIR = os.path.join("/tmp", "j2m-evidence-" + str(os.getuid()))
+
+
 def run_property(pid: str, tier: str, root: str, seed: int, ctx=None) -> int:
+    _evidence_dir_for(root)
     spec = PROPS.get(pid)
     if spec is None:
         print(f"ANALYSIS-ERROR property={pid} no check is registered for this property")
